@@ -30,7 +30,30 @@ try:
         subprocess.run(["/venv/bin/python", "-m", "pytest", "-q", "-p", "no:cacheprovider", "--timeout=900",
                         "--continue-on-collection-errors", "-n", "6", f"--junitxml={xml}"], cwd=wt, env=env, capture_output=True)
         c = subprocess.run(["/venv/bin/python", "/verif/tools/baseline_cmp.py", xml], capture_output=True, text=True)
-        res["baseline_with_patch"] = {"ok": c.returncode == 0, "out": c.stdout[-1500:], "wall_s": round(time.time() - t0)}
+        ok = c.returncode == 0
+        rerun = []
+        if not ok:
+            # tests missing from the pass set are re-run once on their own (the machine is shared and heavily loaded)
+            import re
+            miss = re.findall(r"MISSING (\S+)", c.stdout)
+            still = []
+            for m in miss[:25]:
+                cls, name = m.split("::")
+                parts = cls.split(".")
+                node = None
+                for i in range(len(parts), 0, -1):
+                    f = os.path.join(wt, *parts[:i]) + ".py"
+                    if os.path.exists(f):
+                        node = os.path.relpath(f, wt) + "".join("::" + q for q in parts[i:]) + "::" + name
+                        break
+                if node is None:
+                    still.append(m); continue
+                r = subprocess.run(["/venv/bin/python", "-m", "pytest", "-q", "-p", "no:cacheprovider", "--timeout=1800", node], cwd=wt, env=env, capture_output=True, text=True)
+                rerun.append({"test": node, "rc": r.returncode})
+                if r.returncode != 0:
+                    still.append(m)
+            ok = not still and len(miss) <= 25
+        res["baseline_with_patch"] = {"ok": ok, "out": c.stdout[-1500:], "reran_alone": rerun, "wall_s": round(time.time() - t0)}
         os.remove(xml) if os.path.exists(xml) else None
     res["confirmed"] = bool(rc0 == 0 and res["patch_applies"] and rc1 != 0 and (fast or res["baseline_with_patch"]["ok"]))
 finally:
